@@ -23,7 +23,9 @@ import time
 
 from . import common, env, ops as O
 from .common import HarnessError, restore
-from .engine_t import Execution, _valkey, WATCHDOG_S
+from .engine_t import Execution, _valkey, WATCHDOG_S, is_yield
+
+MAX_YIELDS = 2000
 from .specs import make_store
 
 SRC = common.REPO + "/src/"
@@ -47,6 +49,7 @@ class LWorker(env.BaseWorker):
         self.started = False
         self.results = []
         self.events = 0
+        self.yields = 0
         self.preempt_at = None
         self.pred = None  # predicate this thread is blocked on while parked (None: parked by pre-emption / not started)
         self.where = None
@@ -103,6 +106,11 @@ class LWorker(env.BaseWorker):
         if self.abort:
             return
         self._event(op)
+        if is_yield(op):
+            self.yields += 1
+            if self.yields > MAX_YIELDS:
+                self.s.livelock(self, op)
+            self.s.switch(self, None)  # sleeping / polling: let the others run (voluntary, not a pre-emption)
         while pred is not None and not pred():
             if self.abort:
                 raise Abort()
@@ -161,6 +169,15 @@ class LSched:
         me.pred = None
         if me.abort:
             raise Abort()
+
+    def livelock(self, me, op):
+        self.deadlock = tuple((w.name, ("livelock",) + tuple(getattr(w, "blocked_op", None) or op)[:2])
+                              for w in self.workers if not w.done)
+        for w in self.workers:
+            w.abort = True
+        self.main_sem.release()
+        me.sem.acquire()
+        raise Abort()
 
     def finished(self, me):
         el = self._eligible(me)
